@@ -267,6 +267,7 @@ class C08(PropertyCheck):
     # ------------------------------------------------------------------ generation
     def generate(self, rng, tier):
         q = tier == "quick"
+        K = 4          # size multiplier (quick ~15 s, thorough ~2 min on 6 workers)
         cases = []
         try:    # build /repo's C kernels once, in the parent (workers then only load the cached .so)
             from harness import cshim
@@ -274,34 +275,42 @@ class C08(PropertyCheck):
         except Exception:
             pass
         # every ordered pair of classes, several parameterisations
-        reps = 6 if q else 40
+        reps = K * (6 if q else 120)
         for ca in CLASSES:
             for cb in CLASSES:
                 for k in range(reps):
                     edge = (k % 4 == 3)
                     cases.append({"kind": "pair", "a": _spec(rng, ca, edge=edge), "b": _spec(rng, cb, edge=edge),
                                   "pts": _pts(rng), "edge": edge})
-        for _ in range(30 if q else 200):   # thresholds of to_matrix44 (asaffine line only matters)
+        if not q:   # exhaustive: every ordered class pair x every construction route of both operands
+            for ca in CLASSES:
+                for cb in CLASSES:
+                    for va in ("param", "vec12", "m44", "m44neg"):
+                        for vb in ("param", "vec12", "m44", "m44neg"):
+                            cases.append({"kind": "pair", "a": _spec(rng, ca, allow_raw=False) | {"via": va},
+                                          "b": _spec(rng, cb, allow_raw=False) | {"via": vb},
+                                          "pts": _pts(rng), "edge": False})
+        for _ in range(K * (30 if q else 600)):   # thresholds of to_matrix44 (asaffine line only matters)
             cases.append({"kind": "pair", "a": _spec(rng, rng.choice(["Affine", "Affine2D", "Rigid"]), big=True,
                                                      allow_raw=False) | {"via": "vec12"},
                           "b": _spec(rng), "pts": _pts(rng), "edge": True, "big": True})
         # rotation vectors
         for ang in ANGLES + EDGE_ANGLES:
-            for _ in range(4 if q else 20):
+            for _ in range(K * (4 if q else 60)):
                 ax = _axis(rng)
                 cases.append({"kind": "rot", "r": [ang * x for x in ax]})
         cases.append({"kind": "rot", "r": [0.0, 0.0, 0.0]})
-        for _ in range(30 if q else 300):
+        for _ in range(K * (30 if q else 2000)):
             cases.append({"kind": "rot", "r": [rng.choice([0.0, 1e-31, 1e-9, 0.5, -1.25, 3.0, PI]) for _ in range(3)]})
         # 4x4 -> class -> 4x4
         for cls in CLASSES:
-            for _ in range(25 if q else 200):
+            for _ in range(K * (25 if q else 800)):
                 cases.append({"kind": "from44", "cls": cls,
                               "spec": _spec(rng, cls, edge=rng.random() < 0.3) | ({"via": "param"} if cls != "Affine" else {}),
                               "neg": rng.random() < 0.5, "d0": rng.random() < 0.8, "pts": _pts(rng)})
         # parameter get / set
         for cls in CLASSES:
-            for _ in range(20 if q else 150):
+            for _ in range(K * (20 if q else 500)):
                 n = NPAR[cls]
                 r = rng.random()
                 if r < 0.75:
@@ -311,7 +320,7 @@ class C08(PropertyCheck):
                 p = [rng.choice([0.0, 1.0, -2.0, 0.5, 10.0, -37.5, 50.0, 314.0, 0.25]) for _ in range(ln)]
                 cases.append({"kind": "param", "cls": cls, "spec": _spec(rng, cls), "p": p, "pts": _pts(rng)})
         # compose / inv programs
-        for _ in range(250 if q else 3000):
+        for _ in range(K * (250 if q else 12000)):
             nl = rng.choice([1, 2, 3, 4])
             leaves = []
             for _k in range(nl):
@@ -323,7 +332,7 @@ class C08(PropertyCheck):
                     break
             cases.append({"kind": "prog", "leaves": leaves, "expr": ex, "pts": _pts(rng, 3)})
         # registration chains
-        for _ in range(120 if q else 1500):
+        for _ in range(K * (120 if q else 5000)):
             def side():
                 r = rng.random()
                 if r < 0.2:
@@ -336,7 +345,7 @@ class C08(PropertyCheck):
                 return s
             cases.append({"kind": "chain", "pre": side(), "opt": _spec(rng), "post": side(), "pts": _pts(rng)})
         # polyaffine
-        for _ in range(60 if q else 800):
+        for _ in range(K * (60 if q else 2500)):
             k = rng.choice([1, 2, 3, 4])
             cases.append({"kind": "poly",
                           "centers": [[rng.choice([0.0, 1.0, -2.0, 4.0, 8.0, -5.0]) for _ in range(3)] for _ in range(k)],
@@ -763,34 +772,49 @@ class C08(PropertyCheck):
 
     # ------------------------------------------------------------------ shrinking
     def shrink(self, case):
+        """big steps first (each round of the spine's greedy shrinker costs a process pool)"""
         pts = case.get("pts")
         if pts and len(pts) > 1:
-            for i in range(len(pts)):
-                yield {**case, "pts": pts[:i] + pts[i + 1:]}
+            yield {**case, "pts": pts[:1]}
+            yield {**case, "pts": pts[-1:]}
         if case["kind"] == "prog":
             e, _ = _parse(case["expr"])
             for sub in e[1:]:
                 if isinstance(sub, tuple):
                     yield {**case, "expr": _unparse(sub)}
-        for key in ("a", "b", "spec", "opt", "pre", "post"):
-            s = case.get(key)
-            if isinstance(s, dict) and "nat" in s:
-                if s["via"] != "param" and s["via"] != "raw44":
-                    yield {**case, key: {**s, "via": "param"}}
-                if s["via"] == "raw44":
-                    continue
-                for i, x in enumerate(s["nat"]):
-                    if x != 0:
-                        nat = list(s["nat"]); nat[i] = 0.0
-                        if s["cls"].startswith("Similarity") and i in (6, 7, 8):
-                            nat[6] = nat[7] = nat[8] = 0.0
-                        yield {**case, key: {**s, "nat": nat}}
-                if s["radius"] != 100:
-                    yield {**case, key: {**s, "radius": 100}}
         if case["kind"] == "chain":
             for key in ("pre", "post"):
                 if case[key] is not None:
                     yield {**case, key: None}
+        keys = [k for k in ("a", "b", "spec", "opt", "pre", "post", "glob", "other") if isinstance(case.get(k), dict)
+                and "nat" in case[k]]
+        for key in keys:        # whole transform -> identity of its class
+            s = case[key]
+            if any(x != 0 for x in s["nat"]) or s["via"] not in ("param",) or s["radius"] != 100:
+                yield {**case, key: {"cls": s["cls"], "nat": [0.0] * 12, "radius": 100, "via": "param"}}
+        for key in keys:        # simpler construction route
+            s = case[key]
+            if s["via"] not in ("param", "raw44"):
+                yield {**case, key: {**s, "via": "param"}}
+            if s["radius"] != 100:
+                yield {**case, key: {**s, "radius": 100}}
+        for key in keys:        # parameter groups, then single parameters
+            s = case[key]
+            if s["via"] == "raw44":
+                continue
+            for grp in ((0, 1, 2), (3, 4, 5), (6, 7, 8), (9, 10, 11)):
+                if any(s["nat"][i] != 0 for i in grp):
+                    nat = list(s["nat"])
+                    for i in grp:
+                        nat[i] = 0.0
+                    yield {**case, key: {**s, "nat": nat}}
+            if not s["cls"].startswith("Similarity"):
+                for i, x in enumerate(s["nat"]):
+                    if x != 0:
+                        nat = list(s["nat"]); nat[i] = 0.0
+                        yield {**case, key: {**s, "nat": nat}}
+        if case["kind"] == "poly" and len(case["affs"]) > 1:
+            yield {**case, "affs": case["affs"][:1], "centers": case["centers"][:1]}
 
     def classify(self, case, failure):
         return None
